@@ -168,7 +168,8 @@ def sx_decl(d):
 def sx_hook(h):
     if h is None:
         return []
-    if h["k"] == "ret":
+    if h["k"] in ("ret", "help", "longhelp", "version"):
+        # (the printing callbacks return; what they print is judged by the check, the model prints nothing there)
         return ["ret"]
     if h["k"] == "panic":
         return ["panic", h["v"]]
